@@ -5,10 +5,12 @@
 // around every threshold and RetentionEnabled in {true,false}.
 //
 // Per history it writes
-//   store_run      the operation list (with the clock values the code read)   -> listing after each op
-//   store_inv_ok   C07 RInv / C06 levels_contiguous on the observed listings  -> 1
-//   store_ts_plan  (listing, T)                                               -> planner status and end TXID
-//   store_ts_ok    C15 on the implementation's answers for all T of a listing -> 1
+//
+//	store_run      the operation list (with the clock values the code read)   -> listing after each op
+//	store_inv_ok   C07 RInv / C06 levels_contiguous on the observed listings  -> 1
+//	store_ts_plan  (listing, T)                                               -> planner status and end TXID
+//	store_ts_ok    C15 on the implementation's answers for all T of a listing -> 1
+//
 // and evaluates in Go: Restore(latest) = source image after every retention
 // pass (C07); every level>=1 file = independent re-composition of archived L0
 // files, Restore(TXID) from the replica = Restore(TXID) from the L0 archive
@@ -165,30 +167,47 @@ type mop struct { // one model operation with its observation
 
 type World struct {
 	dir, dbPath, replicaDir, archDir, tmp string
-	pageSize                                int
-	nlv                                     int
-	ret                                     bool
-	style                                   string // aged | real
-	app                                     *sql.DB
-	ldb                                     *litestream.DB
-	store                                   *litestream.Store
-	client                                  *file.ReplicaClient
-	arch                                    *file.ReplicaClient
-	rng                                     *rand.Rand
-	forceL0                                 string    // "" random | "off" | "far": what chooseL0R returns (directed scenarios)
-	forceAge                                int64     // >= 0: the injected age a retention threshold is placed half a unit after
-	far                                     time.Time // stands for "now" where the code reads the clock to age files: later than every stamp
-	cn                                      *canon
-	ops                                     []mop
-	trace                                   []string
-	hadSnap                                 bool
-	retFree                                 bool // no retention pass has run yet (C06 histories)
-	unsafe                                  bool // a direct TXID retention used a floor above the newest snapshot
-	srcDigest                               map[uint64]string
-	archDigest                              map[uint64]string
-	violations                              []ImplViolation
-	counts                                  map[string]int
-	noRestamp                               map[string]bool // files whose mtime the harness never touched
+	pageSize                              int
+	nlv                                   int
+	ret                                   bool
+	style                                 string // aged | real
+	app                                   *sql.DB
+	ldb                                   *litestream.DB
+	store                                 *litestream.Store
+	client                                *file.ReplicaClient
+	arch                                  *file.ReplicaClient
+	rng                                   *rand.Rand
+	forceL0                               string    // "" random | "off" | "far": what chooseL0R returns (directed scenarios)
+	forceAge                              int64     // >= 0: the injected age a retention threshold is placed half a unit after
+	far                                   time.Time // stands for "now" where the code reads the clock to age files: later than every stamp
+	cn                                    *canon
+	ops                                   []mop
+	trace                                 []string
+	hadSnap                               bool
+	retFree                               bool // no retention pass has run yet (C06 histories)
+	unsafe                                bool // a direct TXID retention used a floor above the newest snapshot
+	srcDigest                             map[uint64]string
+	archDigest                            map[uint64]string
+	violations                            []ImplViolation
+	counts                                map[string]int
+	noRestamp                             map[string]bool // files whose mtime the harness never touched
+	repl                                  map[uint64]tval // C15: header timestamp of the L0 file of each TXID when it was replicated
+	marks                                 []time.Time     // C15: wall-clock times of checkpoints and snapshots (query points)
+	soft                                  []ImplViolation // C15 hypothesis violations: reported, but the history goes on to the timestamp restores
+	softSeen                              map[string]bool
+}
+
+// violateSoft records a violation (once per key) without stopping the history.
+func (w *World) violateSoft(k, sig, detail string) {
+	if w.softSeen == nil {
+		w.softSeen = map[string]bool{}
+	}
+	if w.softSeen[k] {
+		return
+	}
+	w.softSeen[k] = true
+	w.soft = append(w.soft, ImplViolation{Signature: sig, Detail: detail,
+		Replay: map[string]any{"history": strings.Join(w.trace, " "), "style": w.style, "levels": w.nlv, "page_size": w.pageSize}})
 }
 
 func (w *World) violate(sig, detail string) {
@@ -200,7 +219,7 @@ func newWorld(dir string, rng *rand.Rand, start time.Time) (*World, error) {
 	w := &World{dir: dir, dbPath: filepath.Join(dir, "db"), replicaDir: filepath.Join(dir, "replica"),
 		archDir: filepath.Join(dir, "arch"), tmp: filepath.Join(dir, "tmp"), rng: rng,
 		srcDigest: map[uint64]string{}, archDigest: map[uint64]string{}, counts: map[string]int{},
-		retFree: true, noRestamp: map[string]bool{}, forceAge: -1}
+		retFree: true, noRestamp: map[string]bool{}, forceAge: -1, repl: map[uint64]tval{}}
 	os.MkdirAll(w.tmp, 0o755)
 	w.pageSize = []int{512, 1024, 4096, 4096}[rng.Intn(4)]
 	w.nlv = 1 + rng.Intn(3)
@@ -507,6 +526,7 @@ func (w *World) opSync() {
 	}
 	ctx, cancel := context.WithTimeout(ctxb, 30*time.Second)
 	defer cancel()
+	t0 := time.Now()
 	if err := w.ldb.Sync(ctx); err != nil {
 		w.violate("harness/sync", err.Error())
 		return
@@ -523,6 +543,14 @@ func (w *World) opSync() {
 		}
 	}
 	w.trace = append(w.trace, "sync")
+	w.absorb(before, after, t0)
+}
+
+// absorb takes note of the L0 files before+1..after that an operation (sync, checkpoint) replicated
+// during the wall-clock window starting at t0: archives them, records their replication time and
+// replays them to the model as sync operations.
+func (w *World) absorb(before, after uint64, t0 time.Time) {
+	t1 := time.Now()
 	for n := before + 1; n <= after; n++ {
 		// archive the L0 file before retention can delete it
 		src := w.client.LTXFilePath(0, ltx.TXID(n), ltx.TXID(n))
@@ -533,6 +561,13 @@ func (w *World) opSync() {
 		ts, ok := w.checkCreated(0, n, n)
 		if !ok {
 			return
+		}
+		// C15: an L0 file is stamped while it is being replicated (the clock read of its sync)
+		w.repl[n] = w.cn.of(ts)
+		w.counts["l0_stamp_in_sync_window_checks"]++
+		if ts.UnixMilli() < t0.UnixMilli() || ts.UnixMilli() > t1.UnixMilli() {
+			w.violate("C15/l0-timestamp-outside-its-replication-window",
+				fmt.Sprintf("TXID %d was replicated between %d and %d (Unix ms) but its level-0 file is stamped %d", n, t0.UnixMilli(), t1.UnixMilli(), ts.UnixMilli()))
 		}
 		if n == after {
 			w.record(0, 0, 0, w.cn.of(ts))
@@ -582,7 +617,9 @@ func (w *World) afterCreate(level int, info *ltx.FileInfo) {
 		return
 	}
 	min, max := uint64(info.MinTXID), uint64(info.MaxTXID)
-	w.checkCreated(level, min, max)
+	if ts, ok := w.checkCreated(level, min, max); ok {
+		w.checkContents(ofile{level: level, min: min, max: max, created: w.cn.of(ts)}, "when it was written")
+	}
 	w.recompose(level, min, max)
 	w.maybeRestamp(level, min, max)
 }
@@ -626,6 +663,9 @@ func (w *World) opCompactDB(level int) {
 	defer cancel()
 	preL0 := len(w.listing().level(0))
 	info, err := w.store.CompactDB(ctx, w.ldb, lvl)
+	if level == 9 {
+		w.marks = append(w.marks, time.Now())
+	}
 	w.ldb.L0Retention = 0
 	st := errStatus(err, 3)
 	if level == 9 && st == 3 {
@@ -652,6 +692,7 @@ func (w *World) opSnapshot() {
 	defer cancel()
 	before := w.pos()
 	info, err := w.ldb.Snapshot(ctx)
+	w.marks = append(w.marks, time.Now())
 	st := errStatus(err, 4)
 	var t tval
 	if st == 0 {
@@ -665,6 +706,56 @@ func (w *World) opSnapshot() {
 	w.record(3, st, 0, t)
 	if st == 0 {
 		w.afterCreate(9, info)
+	}
+}
+
+// checkContents (C15 hypothesis, every level including 9): a file whose mtime the harness has not
+// re-stamped is stamped no earlier than the replication time of the newest transaction it contains
+// (the L0 file of its MaxTXID, as recorded when that TXID was replicated); an L0 file keeps it.
+func (w *World) checkContents(f ofile, when string) {
+	if w.style != "real" && !w.noRestamp[key(f.level, f.min, f.max)] {
+		return
+	}
+	rt, ok := w.repl[f.max]
+	if !ok {
+		return
+	}
+	w.counts["file_stamp_vs_contents_checks"]++
+	got, want := w.cn.time(f.created).UnixMilli(), w.cn.time(rt).UnixMilli()
+	switch {
+	case f.level == 9 && got < want:
+		w.violateSoft(key(f.level, f.min, f.max), "C15/snapshot-timestamp-earlier-than-its-contents",
+			fmt.Sprintf("%s the snapshot 1-%d is stamped %d (Unix ms), %d ms BEFORE TXID %d was replicated (%d): a timestamp restore "+
+				"with T in (%d, %d] uses it and returns transactions replicated at or after T", when, f.max, got, want-got, f.max, want, got, want))
+	case f.level != 9 && f.level != 0 && got < want:
+		w.violateSoft(key(f.level, f.min, f.max), "C15/file-timestamp-earlier-than-its-contents",
+			fmt.Sprintf("%s the level-%d file %d-%d is stamped %d (Unix ms), before TXID %d was replicated (%d)", when, f.level, f.min, f.max, got, f.max, want))
+	case f.level == 0 && got != want:
+		w.violateSoft(key(f.level, f.min, f.max), "C15/l0-timestamp-changed",
+			fmt.Sprintf("%s the level-0 file of TXID %d is stamped %d (Unix ms) but was replicated at %d", when, f.max, got, want))
+	}
+}
+
+// opCheckpoint: a real PASSIVE checkpoint through litestream (C15 histories): the database file is
+// written now, the transactions replicated afterwards live only in the WAL until the next one.
+func (w *World) opCheckpoint() {
+	ctx, cancel := context.WithTimeout(ctxb, 30*time.Second)
+	defer cancel()
+	before := w.pos()
+	t0 := time.Now()
+	err := w.ldb.Checkpoint(ctx, litestream.CheckpointModePassive)
+	if err == nil {
+		err = w.ldb.Replica.Sync(ctx)
+	}
+	if err != nil {
+		w.violate("harness/checkpoint", err.Error())
+		return
+	}
+	w.marks = append(w.marks, time.Now())
+	w.counts["checkpoints"]++
+	w.trace = append(w.trace, "checkpoint")
+	if after := w.pos(); after > before {
+		w.absorb(before, after, t0)
 	}
 }
 
@@ -902,7 +993,7 @@ func (w *World) recompose(level int, min, max uint64) {
 	if level != 9 && got.hdr.Timestamp != want.hdr.Timestamp {
 		diffs = append(diffs, fmt.Sprintf("timestamp %d vs newest input's %d", got.hdr.Timestamp, want.hdr.Timestamp))
 	}
-	if level == 9 && got.hdr.Timestamp < want.hdr.Timestamp {
+	if level == 9 && got.hdr.Timestamp < want.hdr.Timestamp && focus != "c15" { // c15: checkContents reports it and goes on
 		diffs = append(diffs, fmt.Sprintf("snapshot stamped %d, before its newest transaction %d", got.hdr.Timestamp, want.hdr.Timestamp))
 	}
 	if len(got.pgnos) != len(want.pgnos) {
@@ -975,16 +1066,58 @@ type tsQuery struct {
 	plan   listing
 }
 
+func planStr(infos []*ltx.FileInfo) string {
+	var b strings.Builder
+	for i, it := range infos {
+		if i > 0 {
+			b.WriteString(" ")
+		}
+		fmt.Fprintf(&b, "L%d:%d-%d@%d", it.Level, it.MinTXID, it.MaxTXID, it.CreatedAt.UnixMilli())
+	}
+	return "[" + b.String() + "]"
+}
+
 func (w *World) tsOracle() (listing, []tsQuery) {
 	l := w.listing()
 	set := map[int64]struct{}{}
 	var stamps []int64
 	for _, f := range l {
+		w.checkContents(f, "in the final listing")
 		ms := w.cn.time(f.created).UnixMilli()
 		if _, ok := set[ms]; !ok {
 			set[ms] = struct{}{}
 			stamps = append(stamps, ms)
 		}
+	}
+	// C15, histories on the real clock: every replication time (also of TXIDs whose L0 file is gone)
+	// and the times of checkpoints and snapshots are query points too, so that T falls inside every
+	// (checkpoint, snapshot) window and around every transaction
+	pos := w.pos()
+	real := w.style == "real"
+	l0All := uint64(len(l.level(0))) == pos && pos > 0
+	if real {
+		add := func(ms int64) {
+			if _, ok := set[ms]; !ok {
+				set[ms] = struct{}{}
+				stamps = append(stamps, ms)
+			}
+		}
+		for _, rt := range w.repl {
+			add(w.cn.time(rt).UnixMilli())
+		}
+		for _, m := range w.marks {
+			add(m.UnixMilli())
+		}
+	}
+	// the newest TXID replicated strictly before T, from the harness's own record (0: none)
+	lastBefore := func(T time.Time) uint64 {
+		var k uint64
+		for n := uint64(1); n <= pos; n++ {
+			if rt, ok := w.repl[n]; ok && w.cn.time(rt).UnixMilli() < T.UnixMilli() && n > k {
+				k = n
+			}
+		}
+		return k
 	}
 	sort.Slice(stamps, func(i, j int) bool { return stamps[i] < stamps[j] })
 	tset := map[int64]struct{}{}
@@ -1034,6 +1167,10 @@ func (w *World) tsOracle() (listing, []tsQuery) {
 			if _, rerr := restore(w.replicaDir, filepath.Join(w.tmp, "ts.db"), 0, T); rerr == nil {
 				w.violate("C15/restore-succeeds-where-plan-fails", fmt.Sprintf("T=%v", tv))
 			}
+			if want := lastBefore(T); real && l0All && q.status == 2 && want > 0 {
+				w.violate("C15/timestamp-restore-not-the-last-transaction-before-T",
+					fmt.Sprintf("T=%d (Unix ms): TXID %d was replicated before T and every level-0 file is present, but the restore fails with ErrTxNotAvailable", ms, want))
+			}
 			qs = append(qs, q)
 			continue
 		}
@@ -1041,6 +1178,19 @@ func (w *World) tsOracle() (listing, []tsQuery) {
 			q.plan = append(q.plan, ofile{level: it.Level, min: uint64(it.MinTXID), max: uint64(it.MaxTXID), created: w.cn.of(it.CreatedAt)})
 		}
 		end := uint64(infos[len(infos)-1].MaxTXID)
+		if real {
+			// the property itself, against the harness's own record of when each TXID was replicated
+			w.counts["ts_end_vs_replication_record_checks"]++
+			want := lastBefore(T)
+			if rt, ok := w.repl[end]; ok && w.cn.time(rt).UnixMilli() >= ms {
+				w.violate("C15/timestamp-restore-returns-transaction-replicated-at-or-after-T",
+					fmt.Sprintf("T=%d (Unix ms): the restore plan %v ends at TXID %d, which was replicated at %d (>= T); the newest TXID replicated before T is %d",
+						ms, planStr(infos), end, w.cn.time(rt).UnixMilli(), want))
+			} else if l0All && end != want {
+				w.violate("C15/timestamp-restore-not-the-last-transaction-before-T",
+					fmt.Sprintf("T=%d (Unix ms): every level-0 file is present and the newest TXID replicated before T is %d, but the plan %v ends at %d", ms, want, planStr(infos), end))
+			}
+		}
 		img, rerr := restore(w.replicaDir, filepath.Join(w.tmp, "ts.db"), 0, T)
 		if rerr != nil {
 			w.violate("C15/timestamp-restore-fails", fmt.Sprintf("T=%v plan ends at %d: %v", tv, end, rerr))
@@ -1125,6 +1275,9 @@ type result struct {
 	midL   listing
 	midQ   []tsQuery
 	midPos uint64
+	preL   listing
+	preQ   []tsQuery
+	prePos uint64
 	err    error
 }
 
@@ -1138,8 +1291,12 @@ func runHistory(dir string, rng *rand.Rand, steps int, start time.Time, index in
 		if r := recover(); r != nil {
 			w.violate("harness/panic", fmt.Sprint(r))
 		}
+		w.violations = append(w.violations, w.soft...)
 		w.close()
 	}()
+	if focus == "c15" && index%2 == 0 {
+		w.style = "real" // decided before the first file is written (see the directed C15 scenario below)
+	}
 	w.opSync()
 	if focus == "c07" && index%3 == 0 {
 		// every third history starts with a directed snapshot-subset scenario; all 12 subsets within 36 histories
@@ -1157,6 +1314,43 @@ func runHistory(dir string, rng *rand.Rand, steps int, start time.Time, index in
 	retentionHeavy := rng.Intn(3) != 0
 	if focus == "c15" {
 		retentionHeavy = rng.Intn(3) == 0
+	}
+	if focus == "c15" && index%2 == 0 {
+		// every second C15 history runs on the real clock and starts with the shape in which a file's
+		// stamp and the replication times of its contents can drift apart: transactions, a checkpoint
+		// (the database file is written), more transactions that stay in the WAL, a snapshot taken
+		// well after them, more transactions — then timestamp restores around every one of these times
+		w.style = "real"
+		nap := func() { time.Sleep(time.Duration(2+rng.Intn(3)) * time.Millisecond) }
+		for i, n := 0, 1+rng.Intn(2); i < n && len(w.violations) == 0; i++ {
+			nap()
+			w.opSync()
+		}
+		nap()
+		if len(w.violations) == 0 {
+			w.opCheckpoint()
+		}
+		for i, n := 0, 2+rng.Intn(3); i < n && len(w.violations) == 0; i++ {
+			nap()
+			w.opSync()
+		}
+		nap()
+		if len(w.violations) == 0 {
+			if rng.Intn(3) == 0 {
+				w.opCompactDB(9)
+			} else {
+				w.opSnapshot()
+			}
+		}
+		for i, n := 0, 1+rng.Intn(2); i < n && len(w.violations) == 0; i++ {
+			nap()
+			w.opSync()
+		}
+		if len(w.violations) == 0 {
+			res.preL, res.preQ = w.tsOracle()
+			res.prePos = w.pos()
+		}
+		w.counts["directed_checkpoint_snapshot_histories"]++
 	}
 	mid := steps/2 + rng.Intn(5)
 	for i := 0; i < steps && len(w.violations) == 0; i++ {
@@ -1196,6 +1390,8 @@ func runHistory(dir string, rng *rand.Rand, steps int, start time.Time, index in
 		default:
 			if w.style == "aged" {
 				w.opRestampAny()
+			} else if focus == "c15" {
+				w.opCheckpoint()
 			} else {
 				w.opSync()
 			}
@@ -1322,7 +1518,19 @@ func emit(cw *CaseWriter, res result) {
 			cw.Add("store_ts_plan", L(ls, w.cn.sx(q.T)), L(I(int64(q.status)), U(end)), "ts-query/"+w.style, len(l) > 2)
 		}
 		cw.Add("store_ts_ok", L(U(pos), ls, sq), I(1), "ts-oracle/"+w.style, len(qs) > 3)
+		if w.style == "real" {
+			// the hypothesis of ts_exact (ts_hyp) on the real listing, with the harness's record of when
+			// each TXID was replicated: must hold for every file the real code stamped
+			st := make(SxList, 0, pos)
+			for n := uint64(1); n <= pos; n++ {
+				if rt, ok := w.repl[n]; ok {
+					st = append(st, L(U(n), w.cn.sx(rt)))
+				}
+			}
+			cw.Add("store_ts_hyp_ok", L(U(pos), ls, st), I(1), "ts-hypothesis/real", len(l) > 2)
+		}
 	}
+	emitTS(res.prePos, res.preL, res.preQ)
 	emitTS(res.midPos, res.midL, res.midQ)
 	emitTS(res.tsPos, res.tsL, res.tsQ)
 }
